@@ -6,11 +6,18 @@ ID = "C03"
 LEAN_MODULES = ["Ccp.Props.C03"]
 RULE = ("C01's generator biased to banner/macro bodies (indented, blank and deeper-indented body lines, delimiter lines that are "
         "themselves indented, nested starts, unterminated banners/macros), the vendor fixtures, x syntax x ignore_blank_lines x "
-        "comment delimiters; plus the two banner/macro link streams shared with C02 (random token sequences over ten banner-start "
+        "comment delimiters; every line's stored parent, stored child list and the seven derived views are dumped. "
+        "Stored-list stream (model Ccp.Model.TreeStored, channel treestored): the RAW attributes obj.parent / obj._children, "
+        "translated to positions by object identity, at three observation points -- after CiscoConfParse(lines), after one "
+        "ConfigList.bootstrap(lines), and after the indentation loop alone (the banner and macro walks replaced by no-ops on that "
+        "ConfigList instance) -- on banner/macro blocks (also indented under preceding lines, banner starts inside macro bodies, "
+        "nested banner starts), comments and blank lines that follow a deeper-indented line, ignore_blank_lines on/off, all "
+        "delimiter sets, plus a hand-picked corpus (F02's witness, a line that changes parent twice, a list that needs the sort). "
+        "Plus the two banner/macro link streams shared with C02 (random token sequences over ten banner-start "
         "forms, four macro-start forms, closing lines at indents 0..2, '@' variants, deeper body lines and dedenting tails; banner / "
         "macro blocks spliced INTO one another: nested and overlapping starts, macro inside banner and vice versa, unterminated "
         "stretches) and every sequence of length <= 3 (quick) / <= 4 (thorough) containing a start over the 11 link symbols; "
-        "every line's stored parent, stored child list and the seven derived views are dumped. The oracle also requires, on fresh "
+        "The oracle also requires, on fresh "
         "parses, that every line owned by a banner / macro start (Spec/BannerLinks) is a direct child of exactly that start. "
         "non-trivial = the parse has a line with a parent; distinct by request.")
 LEVEL_TEXT = ("Theorems (Lean 4, no size bounds; Ccp.Props.C03 over the model Ccp.Model.Tree of ConfigList.bootstrap for the indentation "
@@ -29,15 +36,27 @@ LEVEL_TEXT = ("Theorems (Lean 4, no size bounds; Ccp.Props.C03 over the model Cc
               "i :: all_children), siblings_spec (the parent's children of equal indent, ascending; for a root its own children of equal "
               "indent), self_mem_siblings, flags_spec (is_parent iff child list non-empty iff some other line names i as parent; is_child "
               "iff not a root). The loop bounds (fuel = number of lines) of the model's all_children / all_parents are proved sufficient. "
+              "STORED child lists (model Ccp.Model.TreeStored: per line the parent AND the list the code keeps in BaseCfgLine._children; "
+              "newLine / addChild / reparent mirror object creation, _add_child_to_parent (None parent, comment exception, "
+              "'child.parent is child', append) and _reparent_child (filter the former parent's list unless the former parent is the child "
+              "or the new parent; set parent; append unless member; sort by line number); the four passes run over that state): for every "
+              "option set and every line list, stored_parents_eq (forgetting the stored lists gives exactly parse: same texts, parents, keep "
+              "flags), stored_children_eq_derived (the stored list of every index equals the derived child list; the table of stored lists "
+              "is the table of derived lists), stored_bootstrap_eq_derived (the same for one bootstrap and for passes 1-3), "
+              "stored_children_ascending, stored_child_exactly_once (a line with a parent is in exactly its parent's stored list, once, and "
+              "occurs once in all stored lists together), stored_root_in_no_list, reparent_keeps_stored_eq_derived (one _reparent_child(p, c) "
+              "with p < c on ANY state whose stored lists are the derived ones yields the derived lists of the re-parented tree). "
               "body_line_child_of_start (+ banner_body_line_child, macro_body_line_child): in the final tree of ANY line list under any "
               "option set, a line owned by a start line s -- the last 'macro name' line (ios) whose stretch reaches it, else the last banner "
               "start whose stretch reaches it; stretches include the closing line and run to the end when unterminated -- has s < i, parent "
               "s, occurs exactly once in s's child list and in no other: banner / macro families are flat however the body is indented. "
-              "All theorems are at full strength; none is partial. The correspondence checks on every run that the implementation's STORED "
-              "parent links, STORED child lists and its seven views equal the model's derived ones.")
-LEVEL_NOTE = ("Trusted: Lean kernel, standard axioms (propext, Classical.choice, Quot.sound), the harness. The model derives child lists from "
-              "the parent indices; that the code's stored child lists (and views) agree with the derived ones is measured by the correspondence "
-              "on every run, not proved. Not proved here: the forest invariant after arbitrary committed edit sequences (commit_forest; the "
+              "All theorems are at full strength; none is partial. The correspondence checks on every run that the implementation's raw "
+              "parent / _children attributes equal the stored-list model's (full parse, one bootstrap, after the indentation loop) and that "
+              "its seven views equal the parent-only model's.")
+LEVEL_NOTE = ("Trusted: Lean kernel, standard axioms (propext, Classical.choice, Quot.sound), the harness. That the stored child lists equal the "
+              "derived ones is proved for the stored-list model, which performs the code's list operations one by one; that this model (and the "
+              "hand-written banner/macro scanners it shares with Ccp.Model.Tree) is the code is measured by the correspondence on every run on "
+              "the raw attributes, as is the agreement of the seven views. Not proved here: the forest invariant after arbitrary committed edit sequences (commit_forest; the "
               "re-bootstrap that commit() performs is covered, the edit operations are C07's state machine) and for brace-syntax (junos) "
               "trees (C08's model).")
 ASSUMPTIONS = ["no lone surrogates", "brace syntax trees are covered by C08's check, edit histories by C07's"]
